@@ -15,14 +15,33 @@ the boundaries between these micro-steps.
 namespace SgModel.Quota
 open SgModel.Persist
 
+/-- what a thread calls on the manager: a `persist_*` operation, or `recover` of the tenant
+(a usage-writing entry point like the others: it is a thread program, not a quiescent
+epilogue) -/
+inductive Call where
+  | op (o : Op)
+  | recover
+deriving DecidableEq, Repr
+
+/-- one micro-step of a call -/
+def callMicro (I : Impl) (cfg : Cfg) (c : Call) (pc : Pc) (s : State) (l : Local) :
+    State × Local × Except Err Pc :=
+  match c with
+  | .op o => I.micro cfg o pc s l
+  | .recover => I.recMicro cfg pc s l
+
+def callStart (I : Impl) : Call → Pc
+  | .op o => I.start o
+  | .recover => I.recStart
+
 structure Thread where
   /-- calls still to make; the head is in progress when `pc` is `some` -/
-  prog : List Op
+  prog : List Call
   /-- next micro-step of the call in progress; `none` = parked before the next call -/
   pc : Option Pc := none
   loc : Local := {}
   /-- completed calls with their results, oldest first -/
-  done : List (Op × Res) := []
+  done : List (Call × Res) := []
 deriving DecidableEq, Repr
 
 structure Sys where
@@ -32,7 +51,7 @@ structure Sys where
   threads : List Thread := []
 deriving DecidableEq, Repr
 
-def init (progs : List (List Op)) : Sys :=
+def init (progs : List (List Call)) : Sys :=
   { threads := progs.map (fun p => { prog := p }) }
 
 def release (lock : Option Nat) (t : Nat) : Option Nat :=
@@ -46,11 +65,11 @@ def stepThread (I : Impl) (cfg : Cfg) (sys : Sys) (t : Nat) : Sys :=
     match th.prog with
     | [] => sys
     | op :: rest =>
-      let pc := th.pc.getD (I.start op)
+      let pc := th.pc.getD (callStart I op)
       if pc = .lock ∧ sys.lock ≠ none then sys
       else
         let lock' := if pc = .lock then some t else sys.lock
-        match I.micro cfg op pc sys.shared th.loc with
+        match callMicro I cfg op pc sys.shared th.loc with
         | (s', _, .error e) =>
             { shared := s', lock := release lock' t,
               threads := sys.threads.set t { prog := rest, done := th.done ++ [(op, .err e)] } }
@@ -82,7 +101,7 @@ def enabled (I : Impl) (sys : Sys) (t : Nat) : Bool :=
   | some th =>
     match th.prog with
     | [] => false
-    | op :: _ => !(th.pc.getD (I.start op) == .lock && sys.lock.isSome)
+    | op :: _ => !(th.pc.getD (callStart I op) == .lock && sys.lock.isSome)
 
 /-- after the schedule: let the lowest-numbered enabled thread move until nobody can
 (the harness drains its threads in the same order) -/
@@ -104,20 +123,29 @@ def recoverUsage (I : Impl) (cfg : Cfg) (s : State) : Option State :=
 
 /-! ### observations and the executable specification -/
 
+/-- the creation the harness attempts after all threads returned -/
+def probeOp : Op := .createNode 99 [] []
+
 structure Obs where
   /-- per thread: the results of its calls, in program order -/
   results : List (List Res)
   /-- ids found by `scan_nodes` / `scan_edges` after all threads returned -/
   nodes : List Nat
   edges : List Nat
-  /-- `get_usage` after all threads returned, after one `recover`, after a second one -/
+  /-- `get_usage` after all threads returned -/
   usage0 : Nat × Nat
+  /-- result of the probe creation, the node ids and `get_usage` after it -/
+  probe : Res
+  nodesP : List Nat
+  usageP : Nat × Nat
+  /-- `get_usage` after one `recover`, after a second one -/
   usage1 : Nat × Nat
   usage2 : Nat × Nat
 deriving DecidableEq, Repr
 
 def obsOf (I : Impl) (cfg : Cfg) (sys : Sys) : Option Obs :=
-  match recoverUsage I cfg sys.shared with
+  let tp := traceOp I cfg probeOp sys.shared
+  match recoverUsage I cfg tp.final with
   | none => none
   | some s1 =>
     match recoverUsage I cfg s1 with
@@ -126,6 +154,8 @@ def obsOf (I : Impl) (cfg : Cfg) (sys : Sys) : Option Obs :=
       some { results := sys.threads.map (fun th => th.done.map (·.2)),
              nodes := sys.shared.kv.nodes.map (·.1), edges := sys.shared.kv.edges.map (·.1),
              usage0 := (sys.shared.usageN, sys.shared.usageE),
+             probe := tp.result, nodesP := tp.final.kv.nodes.map (·.1),
+             usageP := (tp.final.usageN, tp.final.usageE),
              usage1 := (s1.usageN, s1.usageE), usage2 := (s2.usageN, s2.usageE) }
 
 def within (max : Option Nat) (n : Nat) : Bool :=
@@ -133,25 +163,36 @@ def within (max : Option Nat) (n : Nat) : Bool :=
   | some m => decide (n ≤ m)
   | none => true
 
+/-- is there room for one more entity? -/
+def room (max : Option Nat) (n : Nat) : Bool :=
+  match max with
+  | some m => decide (n < m)
+  | none => true
+
 /-- **S for C18**, on observations at quiescence: the persisted entities are within the
-quota; the usage counters equal the number of persisted entities, also after `recover`
-once and twice; every thread got one result per call -/
-def specQuota (cfg : Cfg) (progs : List (List Op)) (o : Obs) : Bool :=
+quota; the usage counters equal the number of persisted entities; a creation attempted now
+is accepted exactly when there is room, and leaves the tenant within its quota with exact
+counters; the counters stay exact after `recover` once and twice; every thread got one
+result per call -/
+def specQuota (cfg : Cfg) (progs : List (List Call)) (o : Obs) : Bool :=
   within cfg.maxNodes o.nodes.length && within cfg.maxEdges o.edges.length
   && o.usage0 == (o.nodes.length, o.edges.length)
-  && o.usage1 == (o.nodes.length, o.edges.length)
-  && o.usage2 == (o.nodes.length, o.edges.length)
+  && (!cfg.enabled || o.probe == (if room cfg.maxNodes o.nodes.length then .ok else .err .quota))
+  && within cfg.maxNodes o.nodesP.length
+  && o.usageP == (o.nodesP.length, o.edges.length)
+  && o.usage1 == (o.nodesP.length, o.edges.length)
+  && o.usage2 == (o.nodesP.length, o.edges.length)
   && o.results.map List.length == progs.map List.length
 
 /-- the creations of node `id` that were accepted -/
-def acceptedCreates (progs : List (List Op)) (results : List (List Res)) (id : Nat) : Nat :=
+def acceptedCreates (progs : List (List Call)) (results : List (List Res)) (id : Nat) : Nat :=
   ((progs.zip results).map (fun pr =>
     ((pr.1.zip pr.2).filter (fun x =>
-      (match x.1 with | .createNode i .. => i == id | _ => false) && x.2.isOk)).length)).sum
+      (match x.1 with | .op (.createNode i ..) => i == id | _ => false) && x.2.isOk)).length)).sum
 
 /-- **S for C18, second part**: a node that is stored was accepted — i.e. a refused creation
 leaves nothing behind -/
-def specRefused (progs : List (List Op)) (o : Obs) : Bool :=
+def specRefused (progs : List (List Call)) (o : Obs) : Bool :=
   o.nodes.all (fun id => decide (0 < acceptedCreates progs o.results id))
 
 end SgModel.Quota
